@@ -115,6 +115,29 @@ func (c *Ctx) SetCrashClass(shape string) {
 	c.w.progressClass(shape)
 }
 
+// TryShard is Shard for code that does not run on the body's goroutine (scheduler callbacks):
+// it reports whether this worker owns the case instead of unwinding.
+func (c *Ctx) TryShard() (owned bool) {
+	if c.sharded {
+		return c.owned
+	}
+	defer func() {
+		if r := recover(); r != nil {
+			if _, ok := r.(notMine); ok {
+				owned = false
+				return
+			}
+			panic(r)
+		}
+	}()
+	c.Shard()
+	return true
+}
+
+// Abandon stops the execution of a case this worker does not own (after TryShard returned false).
+// It must be called on the body's goroutine.
+func (c *Ctx) Abandon() { panic(notMine{}) }
+
 // Skip abandons this case without counting it (used to discard redundant enumerations).
 func (c *Ctx) Skip() { panic(abortCase{}) }
 
